@@ -43,6 +43,7 @@ func init() {
 			{ID: "C09-R17", Title: "state of a shared OS that scripts change is accessed under one lock", Floor: 1, Run: sharedOSStateIsLocked},
 			{ID: "C09-R18", Title: "shared state is enumerated", Floor: 1, Run: sharedStateIsEnumerated},
 			{ID: "C09-R19", Title: "tables that Clone snapshots are written under the clone lock", Floor: 3, Run: cloneTablesAreWrittenUnderTheCloneLock},
+			{ID: "C09-R20", Title: "slices the host hands in are copied before they are written in", Floor: 2, Run: hostSlicesAreCopiedBeforeTheyAreWrittenIn},
 		},
 	})
 }
